@@ -97,4 +97,87 @@ theorem InIv_q {f : FloatFmt} {b num den : Nat} (hden : 0 < den) (h : InIv f b n
     · have := h.1; unfold GtS at this; unfold LeS; omega
     · have := h.2; unfold LtS at this; unfold GeS; omega
 
+/-! ### `roundRat` is ONE correct rounding, in the sense of `Rnd` -/
+
+/-- **`roundRat` (the correctly rounding function of the codec and of `downBits`) satisfies `Rnd`**: for a positive
+fraction whose rounding does not overflow, the value `m · 2^e` of the returned pattern is within half an ulp of
+`num/den` on a grid of the format on which `num/den` has a full mantissa (or the subnormal grid). -/
+theorem roundRat_rnd (f : FloatFmt) (spec : Format) (hp : 2 ≤ f.p) (he2 : 2 ≤ f.ebits)
+    (hmin : spec.minExponent = f.eminSub) (hmb : spec.mantissaBits = f.p)
+    (num den : Nat) (hnum : 0 < num) (hden : 0 < den) (hfin : roundRat f num den < f.infBits) :
+    Rnd spec (((decompose f (roundRat f num den)).1 : ℚ) * (2 : ℚ) ^ (decompose f (roundRat f num den)).2)
+      ((num : ℚ) / (den : ℚ)) := by
+  have hV : (0 : ℚ) < (num : ℚ) / (den : ℚ) :=
+    div_pos (by exact_mod_cast hnum) (by exact_mod_cast hden)
+  rcases roundRat_spec f hp he2 num den hnum hden with ⟨h0, hge⟩ | ⟨hb0, hbi, hI⟩ | ⟨hinf, _⟩
+  · rw [h0]
+    have hd : decompose f 0 = (0, f.eminSub) := (decompose_sub f 0 (Nat.zero_div _)).1
+    rw [hd]
+    refine ⟨spec.minExponent, le_refl _, ?_, Or.inl rfl⟩
+    have := GeS_q hden hge
+    simp only [Nat.cast_zero, zero_mul, zero_sub, abs_neg, abs_of_pos hV]
+    rw [half_ulp_min, hmin]
+    simpa using this
+  · obtain ⟨hm0, hmp, he, hnorm, hbnd⟩ := decompose_facts f (by omega) _ hb0
+    obtain ⟨hlo, hhi⟩ := InIv_q hden hI
+    generalize roundRat f num den = b at *
+    generalize (decompose f b).1 = m at *
+    generalize (decompose f b).2 = e at *
+    generalize (num : ℚ) / (den : ℚ) = V at *
+    unfold Rnd
+    rw [abs_of_pos hV]
+    have hP := two_zpow_pos (e - 2)
+    have e4 : (2 : ℚ) ^ e = 4 * (2 : ℚ) ^ (e - 2) := by
+      rw [zpow_sub₀ (two_ne_zero)]; norm_num; ring
+    have e2 : (2 : ℚ) ^ (e - 1) = 2 * (2 : ℚ) ^ (e - 2) := by
+      rw [zpow_sub₀ (two_ne_zero), zpow_sub₀ (two_ne_zero)]; norm_num; ring
+    have hm1 : (1 : ℚ) ≤ (m : ℚ) := by exact_mod_cast hm0
+    have hhi' : V ≤ 4 * ((m : ℚ) * (2 : ℚ) ^ (e - 2)) + 2 * (2 : ℚ) ^ (e - 2) := by
+      calc V ≤ _ := hhi
+        _ = _ := by push_cast; ring
+    have c1 : ((4 * m - 1 : Nat) : ℚ) = 4 * (m : ℚ) - 1 := by
+      rw [Nat.cast_sub (by omega)]; push_cast; ring
+    have c2 : ((4 * m - 2 : Nat) : ℚ) = 4 * (m : ℚ) - 2 := by
+      rw [Nat.cast_sub (by omega)]; push_cast; ring
+    have hlo' : 4 * ((m : ℚ) * (2 : ℚ) ^ (e - 2)) - 2 * (2 : ℚ) ^ (e - 2) ≤ V := by
+      split at hlo
+      · rw [c1] at hlo; nlinarith
+      · rw [c2] at hlo; nlinarith
+    rw [hmb, hmin]
+    have hval : (m : ℚ) * (2 : ℚ) ^ e = 4 * ((m : ℚ) * (2 : ℚ) ^ (e - 2)) := by rw [e4]; ring
+    by_cases hemin : e = f.eminSub
+    · refine ⟨e, he, ?_, Or.inl hemin⟩
+      rw [hval, e4, abs_le]; constructor <;> linarith
+    · have hB : 2 ^ (f.p - 1) ≤ m := by
+        rcases hnorm with h | h
+        · exact absurd h hemin
+        · exact h
+      have hBq : (2 : ℚ) ^ (f.p - 1) ≤ (m : ℚ) := by exact_mod_cast hB
+      by_cases hmB : m = 2 ^ (f.p - 1)
+      · have hgt : b / 2 ^ (f.p - 1) > 1 := by
+          by_contra hc
+          exact hemin ((hbnd hmB).2 hc)
+        have hem := (hbnd hmB).1 hgt
+        rw [if_pos ⟨hmB, hgt⟩, c1] at hlo
+        have hmq : (m : ℚ) = (2 : ℚ) ^ (f.p - 1) := by rw [hmB]; push_cast; rfl
+        have hlo1 : 4 * ((m : ℚ) * (2 : ℚ) ^ (e - 2)) - (2 : ℚ) ^ (e - 2) ≤ V := by nlinarith
+        by_cases hup : 4 * ((m : ℚ) * (2 : ℚ) ^ (e - 2)) ≤ V
+        · refine ⟨e, he, ?_, Or.inr ?_⟩
+          · rw [hval, e4, abs_le]; constructor <;> linarith
+          · rw [← hmq, hval]; exact hup
+        · refine ⟨e - 1, hem, ?_, Or.inr ?_⟩
+          · rw [hval, e2, abs_le]; constructor <;> linarith
+          · rw [← hmq, e2]
+            have : (2 : ℚ) ^ (e - 2) ≤ (m : ℚ) * (2 : ℚ) ^ (e - 2) := by nlinarith
+            nlinarith
+      · have hB1 : 2 ^ (f.p - 1) + 1 ≤ m := by omega
+        have hBq1 : (2 : ℚ) ^ (f.p - 1) + 1 ≤ (m : ℚ) := by exact_mod_cast hB1
+        refine ⟨e, he, ?_, Or.inr ?_⟩
+        · rw [hval, e4, abs_le]; constructor <;> linarith
+        · rw [e4]
+          have : ((2 : ℚ) ^ (f.p - 1) + 1) * (2 : ℚ) ^ (e - 2) ≤ (m : ℚ) * (2 : ℚ) ^ (e - 2) :=
+            mul_le_mul_of_nonneg_right hBq1 hP.le
+          nlinarith
+  · omega
+
 end Rosu.FErr
